@@ -12,6 +12,7 @@ import RbV.Lemmas.PoaBandedFull
 import RbV.Lemmas.PoaModes
 import RbV.Lemmas.PoaGrowAll
 import RbV.Lemmas.PoaChainLink
+import RbV.Lemmas.PoaCustomGlobal
 /-!
 # C16 — partial-order alignment: exact on linear graphs, graph stays a growing DAG
 
@@ -256,6 +257,33 @@ theorem model_banded_on_linear_graph_is_optimum (sc : Sc) (x q : List Nat) (bw :
   rw [Poa.Model.bandedScore_full sc x (Poa.Model.chainG x).es q bw hd hbw hgap hmin]
   exact model_global_on_linear_graph_is_optimum sc x q hx
 
+/-- **the faithful model of `Aligner::global`** (`custom` with the four clip penalties at `MIN_SCORE`, every
+`MIN_SCORE` start cell and clip candidate kept — the model whose score and operation list the driver compares
+with the real `global` on every step) **reports the score of the clip-free model** on every non-empty
+well-formed DAG, provided no score comes near `MIN_SCORE`: `gap ≤ 0`, substitution scores `≤ W` (`0 ≤ W`),
+`MIN_SCORE < (#nodes + |q| + 1)·gap − |q|·W`.  (Every clip candidate loses: prefix clips against the lower
+bound `(v+1+j)·gap` of a cell, suffix clips because `column maximum + MIN_SCORE ≤ |q|·W + MIN_SCORE`.) -/
+theorem model_faithful_global_equals_clipfree (sc : Sc) (labels : List Nat) (es : Poa.Model.WEdges)
+    (q : List Nat) (W : Int)
+    (hne : labels ≠ [])
+    (hwf : ∀ e ∈ es, e.1 < labels.length ∧ e.2.1 < labels.length)
+    (hac : ∀ v, ¬ Reach (plain es) v v)
+    (hgap : sc.gap ≤ 0) (hW : 0 ≤ W) (hw : ∀ a b, sc.w a b ≤ W)
+    (hmin : Poa.Model.minScore < ((labels.length + q.length + 1 : Nat) : Int) * sc.gap - (q.length : Int) * W) :
+    (Poa.Model.customAlign sc Poa.Model.minScore Poa.Model.minScore Poa.Model.minScore Poa.Model.minScore labels es q).1 =
+      (Poa.Model.globalAlign sc labels es q).1 :=
+  Poa.Model.customScore_minclips sc labels es q W ⟨hne, hwf, hac⟩ hgap hW hw hmin
+
+/-- … hence **the score clause for the faithful model**: on the graph built from one non-empty sequence the
+faithful `global` reports the Needleman–Wunsch optimum (same side conditions) -/
+theorem model_faithful_global_on_linear_graph_is_optimum (sc : Sc) (x q : List Nat) (W : Int) (hx : x ≠ [])
+    (hgap : sc.gap ≤ 0) (hW : 0 ≤ W) (hw : ∀ a b, sc.w a b ≤ W)
+    (hmin : Poa.Model.minScore < ((x.length + q.length + 1 : Nat) : Int) * sc.gap - (q.length : Int) * W) :
+    (Poa.Model.customAlign sc Poa.Model.minScore Poa.Model.minScore Poa.Model.minScore Poa.Model.minScore
+      x (Poa.Model.chainG x).es q).1 = nwBest sc x q := by
+  rw [Poa.Model.customScore_minclips sc x (Poa.Model.chainG x).es q W (Poa.Model.chainG_dag x hx) hgap hW hw hmin]
+  exact model_global_on_linear_graph_is_optimum sc x q hx
+
 /-- **every alignment mode keeps the graph a DAG** (DESIGN [C], full statement).  `stepAdd sc cl g mode q` is
 `add_to_graph()` after `global` / `semiglobal` / `local` / `custom` (configured clip penalties `cl`) /
 `global_banded(bw)` (any bandwidth, narrow bands with their out-of-band cells included) in the *faithful*
@@ -367,6 +395,10 @@ example : Poa.Model.minScore < ((3 + 3 + 1 : Nat) : Int) * exSc.gap := by decide
 -- faithful models: local alignment of TT against ACGTT clips the prefix; a narrow band gives a junk list; both additions keep a DAG
 example : (Poa.Model.customAlign exSc 0 0 0 0 [65, 67, 71, 84, 84] [(0, 1, 1), (1, 2, 1), (2, 3, 1), (3, 4, 1)] [84, 84]).1 = 2 := by decide
 example : (Poa.Model.historyM [65, 67, 71, 84, 84] [(exSc, ⟨0, 0, 0, 0⟩, .local, [84, 84]), (exSc, ⟨0, 0, 0, 0⟩, .banded 1, [71, 71, 71, 84])]).labels.length = 8 := by decide
+-- the side conditions of the faithful-global theorem hold for +1/−1/−1 and lengths 3, 3
+example : Poa.Model.minScore < ((3 + 3 + 1 : Nat) : Int) * exSc.gap - (3 : Int) * 1 := by decide
+example : (Poa.Model.customAlign exSc Poa.Model.minScore Poa.Model.minScore Poa.Model.minScore Poa.Model.minScore
+    [65, 67, 71] [(0, 1, 1), (1, 2, 1)] [65, 84, 71]).1 = 1 := by decide
 -- a DAG with a bubble is accepted, a 3-cycle is not
 example : isAcyclic 4 [(0, 1), (1, 2), (0, 3), (3, 2)] = true := by decide
 example : isAcyclic 3 [(0, 1), (1, 2), (2, 0)] = false := by decide
